@@ -40,7 +40,7 @@ func init() { register("C14", checkC14) }
 // MC_CliBytes (TLC) adds the texts the command line carries: every byte
 // sequence up to a bound over the bytes a front end might treat specially x
 // every channel (program text in a string / regex literal / between tokens /
-// in a comment, at its very beginning / end, selector, file name, input bytes
+// in a comment, at its very beginning / end, the whole program, selector, file name, input bytes
 // inside a string / between values / at the very beginning / end, document
 // strings and keys, the raw last write of the program at the end of the run /
 // before exit / before an error) x the command-line shapes of that channel.
@@ -266,6 +266,9 @@ func c14TextTriple(ch string, text []byte) *c14Triple {
 		tr.I.Docs[0] = doc(map[string]any{t: []any{map[string]any{"x": 1}, map[string]any{"x": 2}}, "other": []any{}})
 		tr.I.Sels[0] = `$["` + t + `"]`
 		tr.P = c14Prog{Src: `{ print $.x; $.seen = true }`}
+	case "prog-all":
+		// the text IS the program: the empty program, a blank, a lone newline, a lone string ...
+		tr.P = c14Prog{Src: t}
 	case "prog-head":
 		tr.P = c14Prog{Src: t + `{ print $.x }`}
 	case "prog-tail":
@@ -651,7 +654,7 @@ func checkC14(c *Ctx) {
 		}
 		return textOrder[i].text < textOrder[j].text
 	})
-	bounds["texts"] = fmt.Sprintf("every sequence of <= %d units over 13 bytes (%% d CR LF TAB blank \" \\ C3 A9 , - <), on the channels that load bytes from a file or pipe also the byte-order marks EF BB BF / FE FF / FF FE as units, x 17 channels x the command-line shapes of the channel", maxLen)
+	bounds["texts"] = fmt.Sprintf("every sequence of <= %d units over 13 bytes (%% d CR LF TAB blank \" \\ C3 A9 , - <), on the channels that load bytes from a file or pipe also the byte-order marks EF BB BF / FE FF / FF FE as units, x 18 channels x the command-line shapes of the channel", maxLen)
 	c.Set("bounds", bounds)
 	nTextRuns := 0
 	for _, tk := range textOrder {
